@@ -85,8 +85,8 @@ def encode(F):
         fields.append('dd=' + F['dd'])
     if F.get('mode', 'A') is not None:
         fields.append('mode=' + F.get('mode', 'A'))
-    if 'ver' in F and F['ver'] is not None:
-        fields.append('ver=' + F['ver'])
+    if F.get('ver', 'DDDMP-2.0') is not None:
+        fields.append('ver=' + F.get('ver', 'DDDMP-2.0'))
     if 'text' in F:
         fields.append('text=' + F['text'])
     return fields
@@ -354,6 +354,15 @@ def make_file(rng, dg, roots, numbering, opts):
         rng.shuffle(lines)
     F['nodes'] = lines
     F['nnodes'] = len(lines)
+    # header lines the loader ignores (`C16_header_ignored`): `.add`, `.dd`, `.ver` texts, no `.ver` / `.mode`
+    if opts.get('add'):
+        F['add'] = True
+    if opts.get('dd') is not None:
+        F['dd'] = opts['dd']
+    if 'ver' in opts:
+        F['ver'] = opts['ver']
+    if 'mode' in opts:
+        F['mode'] = opts['mode']
     name_of = {v: (vid[v] if nameless else v) for v in lv}
     return F, name_of
 
@@ -544,6 +553,12 @@ def text_layer(ctx):
              ('rootnames-bad-lookahead', base_text(extra_header=['.rootnames f $']), False)]
     for vi in (0, 1):
         fixed.append((f'varinfo-{vi}', base_text(varinfo=vi), True))
+    # `.add` is accepted and never read: an ADD file (terminal lines `id T value 0 0`) is read as a BDD
+    add1 = base_text(extra_header=['.add']).replace('1 T 1 0 0', '1 T 7 0 0')
+    fixed.append(('add-file-one-terminal', add1, True))
+    fixed.append(('add-file-two-terminals',
+                  add1.replace('.nnodes 3', '.nnodes 4').replace('2 y 1 1 -1', '2 y 1 1 4\n4 T 3 0 0'), False))
+    fixed.append(('add-file-float', add1.replace('1 T 7 0 0', '1 T 0.5 0 0'), False))
     for label, text, ok in fixed:
         text_case(ctx, s, text, label, expect_ok=ok)
         ctx.count('text-fixed:' + label)
@@ -805,6 +820,13 @@ def random_opts(rng, k):
     o['ids_identity'] = rng.random() < 0.3
     if not o['names'] and not o['ordered']:
         o['nameless_perm'] = rng.choice(['identity', 'involution'])
+    o['add'] = rng.random() < 0.25
+    if rng.random() < 0.25:
+        o['dd'] = rng.choice(['f', 'out.bdd', '_d@1', "g'"])
+    if rng.random() < 0.3:
+        o['ver'] = rng.choice([None, 'DDDMP-2.0', 'DDDMP-1.0', 'x--2.-0', 'v-10.3'])
+    if rng.random() < 0.2:
+        o['mode'] = None
     return o
 
 
@@ -1026,5 +1048,8 @@ REGISTRY = {
             'every node/root and compared with the harness evaluator; every 3rd case goes on using the '
             'loaded manager (incref roots, and of two roots, exist, collect_garbage: results against '
             'the file tables, exact counts for the ledger), every 7th collects at once (nothing held: '
-            'no node survives); exact-state correspondence throughout'),
+            'no node survives); every file is loaded from its TEXT by the model too (loadDddmpText: line dispatch, header lexer, '
+            'grammar with actions, node lines) and the two encodings must agree; generated files carry .add / .dd / odd or absent '
+            '.ver / absent .mode; text layer: every header line of the grammar on a valid file, 17 odd variable names (y.end, '
+            'y.nodes, .foo, ...) in modes 3 and 0, 500 (thorough 6000) random edits of valid texts; exact-state correspondence throughout'),
 }
